@@ -1065,6 +1065,9 @@ func (f *Frame) rangeInit(x *ssa.Range, st *State) Val {
 		h := "IterSeen$" + typeKey(mt.Key())
 		c.heapSort[h] = "(Array Int (Array " + c.sortOf(mt.Key()) + " Bool))"
 		c.heapSet(st, h, "(store "+c.heapGet(st, h, c.heapSort[h])+" "+r+" ((as const (Array "+c.sortOf(mt.Key())+" Bool)) false))")
+		// number of keys produced so far
+		c.heapSort["IterCount"] = "(Array Int Int)"
+		c.heapSet(st, "IterCount", "(store "+c.heapGet(st, "IterCount", "(Array Int Int)")+" "+r+" 0)")
 	} else {
 		h := "IterPos"
 		c.heapSort[h] = "(Array Int Int)"
@@ -1116,5 +1119,17 @@ func (f *Frame) next(x *ssa.Next, st *State) Val {
 	ks := c.sortOf(mt.Key())
 	c.assume(and(f.curGuard, not(q(okn))), fmt.Sprintf("(forall ((k!q %s)) (! (=> (and (not (= %s 0)) (select %s k!q)) (select %s k!q)) :pattern ((select %s k!q))))", ks, src.T, dom, seen, dom))
 	c.heapSet(st, h, "(store "+c.heapGet(st, h, c.heapSort[h])+" "+it.T+" "+ite(q(okn), "(store "+seen+" "+kv.T+" true)", seen)+")")
+	// a range over a map produces every key exactly once: the count of keys
+	// produced stays below len(m) while keys remain and equals it at the end
+	if c.Mode == ModeInt {
+		c.heapSort["IterCount"] = "(Array Int Int)"
+		cnt := c.name("itercnt", "(select "+c.heapGet(st, "IterCount", "(Array Int Int)")+" "+it.T+")", "Int")
+		lh := f.mapLenHeap()
+		mlen := ite(eq(src.T, "0"), "0", "(select "+c.heapGet(st, lh, c.heapSort[lh])+" "+src.T+")")
+		c.assume(f.curGuard, "(and (<= 0 "+mlen+") (<= "+mlen+" "+maxLenStr+") (<= 0 "+cnt+") (<= "+cnt+" "+mlen+"))")
+		c.assume(and(f.curGuard, q(okn)), "(< "+cnt+" "+mlen+")")
+		c.assume(and(f.curGuard, not(q(okn))), eq(cnt, mlen))
+		c.heapSet(st, "IterCount", "(store "+c.heapGet(st, "IterCount", "(Array Int Int)")+" "+it.T+" "+ite(q(okn), "(+ "+cnt+" 1)", cnt)+")")
+	}
 	return Val{Typ: x.Type(), Tup: []Val{{T: q(okn), Typ: tup.At(0).Type()}, kv, {T: val, Typ: mt.Elem()}}}
 }
